@@ -849,11 +849,26 @@ func (p *c28Pair) mutate(op *scn.Op, newMsg func() proto.Message) string {
 			}
 			return ""
 		}
+		// two members of the same oneof, adjacent or with a member of another oneof
+		// (or, proto3, an optional field = synthetic oneof) in between: must be rejected
+		mid := other
+		if mid == nil {
+			mid = pickFD(md, int64(seed), func(fd protoreflect.FieldDescriptor) bool {
+				return fd.HasOptionalKeyword() && fd.ContainingOneof() != nil && fd.ContainingOneof().IsSynthetic() && (fd.Kind() == protoreflect.Uint32Kind || fd.Kind() == protoreflect.StringKind || fd.Kind() == protoreflect.BoolKind || fd.Kind() == protoreflect.Uint64Kind)
+			})
+		}
+		interleave := mid != nil && r.Bool()
 		if op.Op == "json-two-members" {
 			in := fmt.Sprintf(`{"%s": %s, "%s": %s}`, a.JSONName(), lit(a, true), b.JSONName(), lit(b, true))
+			if interleave {
+				in = fmt.Sprintf(`{"%s": %s, "%s": %s, "%s": %s}`, a.JSONName(), lit(a, true), mid.JSONName(), lit(mid, true), b.JSONName(), lit(b, true))
+			}
 			err = protojson.Unmarshal([]byte(in), scratch)
 		} else {
 			in := fmt.Sprintf("%s: %s\n%s: %s\n", a.TextName(), lit(a, false), b.TextName(), lit(b, false))
+			if interleave {
+				in = fmt.Sprintf("%s: %s\n%s: %s\n%s: %s\n", a.TextName(), lit(a, false), mid.TextName(), lit(mid, false), b.TextName(), lit(b, false))
+			}
 			err = prototext.Unmarshal([]byte(in), scratch)
 		}
 		if err == nil {
